@@ -44,12 +44,14 @@ HAY_YAML = [
     '"None"', '"~"', '"[1]"', '"{}"', '"{[1]: 2}"', '"1e3"', '"0x10"',
     '"1_000"', '"(1"', "\"'q'\"", '"a b"', '"a.b"', "2020-01-01",
     "2001-12-14T21:59:43.10-05:00", '"é"', '"1+"', '"..."',
+    '"1.1.5"', '"1.5-rc1"', '"3.0.1"', '"5 apples"',
 ]
 NEEDLES = [
     "", " ", "0", "1", "-1", "1000", "1.0", "2.5", "01", "a", "A", "ab", "b",
     "true", "True", "TRUE", "false", "yes", "null", "None", "~", "[1]", "{}",
     "{[1]: 2}", "1e3", "0x10", "1_000", "(1", "'q'", "a b", "a.b", "^a", "a$",
     ".", "a|b", "2020", "é", "1+", "...", "-0.5",
+    "1.10", "1.50", "3.00", "1.1.5", "5.",
 ]
 _HAYS = None
 
